@@ -70,6 +70,9 @@ func next(kind string) entry {
 	if vec == nil {
 		panic("verifrt: no replay vector (set VERIF_REPLAY)")
 	}
+	for pos < len(vec.Draws) && vec.Draws[pos].Kind == "cbcdec" {
+		pos++ // model-only entries (values of the uninterpreted cipher), see ModelPlaintext
+	}
 	if pos >= len(vec.Draws) {
 		panic(fmt.Sprintf("verifrt: replay vector exhausted at draw %d (%s)", pos, kind))
 	}
@@ -120,6 +123,26 @@ var randLog [][]byte
 
 // RandLog returns the octets delivered by every successful read of the random source so far.
 func RandLog() [][]byte { return randLog }
+
+// ModelPlaintext returns the octets the solver's model assigned to the i-th CBC decryption of the
+// counterexample (values of the uninterpreted block decryption), or nil.  A native replay uses them to
+// construct a ciphertext that really decrypts to those octets.
+func ModelPlaintext(i int) []byte {
+	if vec == nil {
+		return nil
+	}
+	k := 0
+	for _, e := range vec.Draws {
+		if e.Kind == "cbcdec" {
+			if k == i {
+				b, _ := hex.DecodeString(e.Hex)
+				return b
+			}
+			k++
+		}
+	}
+	return nil
+}
 
 // Native reports whether the harness runs natively (replay) rather than under the executor.
 func Native() bool { return true }
@@ -300,6 +323,9 @@ func AESDec(key, block []byte) []byte {
 
 // GuardCipher registers a condition that must be implied at every later cipher call (executor only).
 func GuardCipher(label string, c bool) {}
+
+// ClearGuards removes the conditions registered with GuardCipher (executor only).
+func ClearGuards() {}
 
 // CipherCalls reports how many block-mode operations have run (executor only; natively 0).
 func CipherCalls() int { return 0 }
